@@ -87,22 +87,27 @@ def _check_logs(sx, ids, sent, expected, fs):
 
 def run_single(sx, cfg, env):
     iso = _iso()
-    sm = iso.IsoTpStateMachine([IDS[0]])
+    rx = cfg.get("rxid", IDS[0])
+    return _run_single(sx, cfg, iso, rx)
+
+
+def _run_single(sx, cfg, iso, RX0):
+    sm = iso.IsoTpStateMachine([RX0])
     payload, frames = _segments(sx, "p", cfg["L"], cfg["fs"], cfg["pad"])
     got = []
     for i, fr in enumerate(frames):
-        out = list(sm.decode_rx_frame(IDS[0], fr))
+        out = list(sm.decode_rx_frame(RX0, fr))
         if i < len(frames) - 1:
             sx.require(len(out) == 0, "no-early-report")
         got += out
     sx.require(len(got) == 1, "telegram-reported-exactly-once")
     if got:
-        sx.require(got[0][0] == IDS[0], "telegram-id")
+        sx.require(got[0][0] == RX0, "telegram-id")
         sx.require(len(got[0][1]) == cfg["L"], "telegram-length")
         sx.require(got[0][1] == payload, "telegram-content")
         sx.observe("telegram", core.frozen(got[0][1]))
     sx.observe("n_frames", len(frames))
-    _check_logs(sx, [IDS[0]], [(IDS[0], f) for f in frames], [(IDS[0], payload)], cfg["fs"])
+    _check_logs(sx, [RX0], [(RX0, f) for f in frames], [(RX0, payload)], cfg["fs"])
 
 
 def run_sequence(sx, cfg, env):
@@ -276,6 +281,10 @@ def run_active(sx, cfg, env):
                 sx.require(d == want, "flow-control-is-clear-to-send")
         elif len(frames) > 1 and i <= 255:
             sx.require(len(new) == 0, "no-flow-control-inside-a-block")
+        for m in new:
+            # whatever the decoder sends is a clear-to-send on the tx id paired with this rx id
+            sx.require(m.arbitration_id == TX[which], "flow-control-sent-on-the-paired-tx-id")
+            sx.require(bytes(m.data)[:3] == bytes([0x30, 0xFF, 0x00]), "flow-control-is-clear-to-send")
     sx.require(len(got) == 1, "telegram-reported-exactly-once")
     if got:
         sx.require(got[0][1] == payload, "telegram-content")
@@ -308,7 +317,7 @@ def configs(tier, seed):
         seqs = [(3, 9), (9, 3), (20, 20), (7, 8, 6)]
         inter = [(((9,), (3,)), 1), (((9,), (10,)), 0), (((3,), (3,), (3,)), 1), (((10,), (3,)), 1),
                  (((3, 9), (9, 9)), 0), (((9, 3), (9,)), 1)]
-        act = [(L, 8, ps) for L in (1, 7, 8, 20, 120) for ps in (0, 8)]
+        act = [(L, 8, ps) for L in (1, 7, 8, 20, 120, 1800, 4095) for ps in (0, 8)]
     else:
         Ls = list(range(1, 131)) + [250, 251, 252, 1784, 1785, 1786, 1791, 1792, 1793, 4093, 4094,
                                     4095]
@@ -327,6 +336,10 @@ def configs(tier, seed):
             for pad in ([False, True] if (fs == 8 or L in (1, 9, 70)) else [True]):
                 out.append({"id": f"single/fs{fs}/L{L}/pad{int(pad)}", "harness": "single", "L": L,
                             "fs": fs, "pad": pad})
+    for rxid in (0x18DAF110, 0x1FFFFFFF, 0x7):
+        for L, fs in ((5, 8), (20, 8), (70, 64)):
+            out.append({"id": f"single/rx{rxid:x}/fs{fs}/L{L}", "harness": "single", "L": L, "fs": fs,
+                        "pad": True, "rxid": rxid})
     for s in seqs:
         out.append({"id": "sequence/" + "-".join(map(str, s)), "harness": "sequence", "Ls": list(s),
                     "fs": 8, "pad": True})
